@@ -63,12 +63,12 @@ theorem Cp.handle_cases (s : Cp) :
           s.handle = ({ s.flushAsk m.id k with fault := some "cache_send" }, true)) ∨
        (0 < s.nCaches ∧
           s.handle = ({ s.flushAsk m.id s.nCaches with curFlush := some m.id, drvIn := rest }, true)) ∨
-       (s.nCaches = 0 ∧ ∃ b, (b = true ↔ s.drvOut.length < s.capDrv) ∧
-          s.handle = ({ s with log := s.log ++ [.flushStart m.id, .flushDone m.id b],
+       (s.nCaches = 0 ∧ s.drvOut.length < s.capDrv ∧
+          s.handle = ({ s with log := s.log ++ [.flushStart m.id, .flushDone m.id true],
                                curFlush := some m.id, drvIn := rest,
-                               drvOut := if b then s.drvOut ++ [m] else s.drvOut }, true)))) ∨
-    (∃ m rest b, s.fault = none ∧ s.drvIn = m :: rest ∧ s.numAck = 0 ∧ m.kind ≠ .flush ∧
-      (b = true ↔ s.dmaOut.length < s.capDma) ∧ s.handle = (s.copyFwd m rest b, true)) := by
+                               drvOut := s.drvOut ++ [m] }, true)))) ∨
+    (∃ m rest, s.fault = none ∧ s.drvIn = m :: rest ∧ s.numAck = 0 ∧ m.kind ≠ .flush ∧
+      s.dmaOut.length < s.capDma ∧ s.handle = (s.copyFwd m rest true, true)) := by
   rcases s with ⟨nC, cIn, cDrv, cDma, cCache, drvIn, drvOut, dmaOut, dmaIn, cacheOut, cacheIn, numAck,
     curFlush, mapH, mapD, nextCid, fault, log⟩
   unfold Cp.handle
@@ -85,8 +85,6 @@ theorem Cp.handle_cases (s : Cp) :
         subst hn0
         cases mk with
         | flush =>
-          right; left
-          refine ⟨⟨mid, .flush⟩, rest, rfl, rfl, rfl, rfl, ?_⟩
           obtain ⟨k, flt, hkl, he, hd'⟩ := Cp.foldl_flushCache_shape (List.range nC)
             (Cp.mk nC cIn cDrv cDma cCache (⟨mid, .flush⟩ :: rest) drvOut dmaOut dmaIn cacheOut cacheIn 0
               curFlush mapH mapD nextCid none (log ++ [.flushStart mid])) rfl
@@ -97,25 +95,38 @@ theorem Cp.handle_cases (s : Cp) :
           rcases hd' with ⟨h1, h2⟩ | ⟨h1, h2, h3⟩
           · subst h1; cases h2
             by_cases hz : nC = 0
-            · right; right
-              refine ⟨hz, decide (drvOut.length < cDrv), by simp, ?_⟩
-              subst hz
-              by_cases hr : drvOut.length < cDrv <;> simp [Cp.sendDrv, hr]
+            · subst hz
+              by_cases hr : drvOut.length < cDrv
+              · right; left
+                refine ⟨⟨mid, .flush⟩, rest, by simp, by simp, by simp, by simp, ?_⟩
+                right; right
+                refine ⟨rfl, hr, ?_⟩
+                simp [Cp.pushDrv, hr]
+              · left
+                simp [hr]
             · right; left
+              refine ⟨⟨mid, .flush⟩, rest, by simp, by simp, by simp, by simp, ?_⟩
+              right; left
               refine ⟨by omega, ?_⟩
               simp [Cp.flushAsk, hz]
           · subst h1
+            right; left
+            refine ⟨⟨mid, .flush⟩, rest, by simp, by simp, by simp, by simp, ?_⟩
             left
             refine ⟨k, h2, h3, ?_⟩
             simp [Cp.flushAsk, Nat.min_eq_left (Nat.le_of_lt h2)]
         | h2d =>
-          right; right
-          refine ⟨_, rest, decide (dmaOut.length < cDma), rfl, rfl, rfl, by simp, by simp, ?_⟩
-          by_cases hr : dmaOut.length < cDma <;> simp [Cp.copyFwd, hr]
+          by_cases hr : dmaOut.length < cDma
+          · right; right
+            refine ⟨_, rest, rfl, rfl, rfl, by simp, hr, ?_⟩
+            simp [Cp.copyFwd, hr]
+          · left; simp [hr]
         | d2h =>
-          right; right
-          refine ⟨_, rest, decide (dmaOut.length < cDma), rfl, rfl, rfl, by simp, by simp, ?_⟩
-          by_cases hr : dmaOut.length < cDma <;> simp [Cp.copyFwd, hr]
+          by_cases hr : dmaOut.length < cDma
+          · right; right
+            refine ⟨_, rest, rfl, rfl, rfl, by simp, hr, ?_⟩
+            simp [Cp.copyFwd, hr]
+          · left; simp [hr]
 
 /-- result of `processMemCopyRsp` -/
 def Cp.copyDone (s : Cp) (c o : Nat) (k : CpKind) (rest : List Nat) (b : Bool) : Cp :=
@@ -127,10 +138,10 @@ def Cp.copyDone (s : Cp) (c o : Nat) (k : CpKind) (rest : List Nat) (b : Bool) :
 
 theorem Cp.dmaRsp_cases (s : Cp) :
     s.dmaRsp = (s, false) ∨
-    (∃ c rest, s.fault = none ∧ s.dmaIn = c :: rest ∧
-      ((∃ o k b, (k = .h2d ∧ s.mapH.lookup c = some o ∨
+    (∃ c rest, s.fault = none ∧ s.dmaIn = c :: rest ∧ s.drvOut.length < s.capDrv ∧
+      ((∃ o k, (k = .h2d ∧ s.mapH.lookup c = some o ∨
                   k = .d2h ∧ s.mapH.lookup c = none ∧ s.mapD.lookup c = some o) ∧
-          (b = true ↔ s.drvOut.length < s.capDrv) ∧ s.dmaRsp = (s.copyDone c o k rest b, true)) ∨
+          s.dmaRsp = (s.copyDone c o k rest true, true)) ∨
        (s.mapH.lookup c = none ∧ s.mapD.lookup c = none ∧
           s.dmaRsp = ({ s with fault := some "never" }, true)))) := by
   rcases s with ⟨nC, cIn, cDrv, cDma, cCache, drvIn, drvOut, dmaOut, dmaIn, cacheOut, cacheIn, numAck,
@@ -142,22 +153,24 @@ theorem Cp.dmaRsp_cases (s : Cp) :
     cases dmaIn with
     | nil => left; simp
     | cons c rest =>
-      right
-      refine ⟨c, rest, rfl, rfl, ?_⟩
-      cases hH : mapH.lookup c with
-      | some o =>
-        left
-        refine ⟨o, .h2d, decide (drvOut.length < cDrv), .inl ⟨rfl, rfl⟩, by simp, ?_⟩
-        by_cases hr : drvOut.length < cDrv <;> simp [Cp.copyDone, Cp.sendDrv, hr, hH]
-      | none =>
-        cases hD : mapD.lookup c with
+      by_cases hr : drvOut.length < cDrv
+      · right
+        refine ⟨c, rest, rfl, rfl, hr, ?_⟩
+        cases hH : mapH.lookup c with
         | some o =>
           left
-          refine ⟨o, .d2h, decide (drvOut.length < cDrv), .inr ⟨rfl, rfl, rfl⟩, by simp, ?_⟩
-          by_cases hr : drvOut.length < cDrv <;> simp [Cp.copyDone, Cp.sendDrv, hr, hH, hD]
+          refine ⟨o, .h2d, .inl ⟨rfl, rfl⟩, ?_⟩
+          simp [Cp.copyDone, Cp.pushDrv, hr, hH]
         | none =>
-          right
-          simp [hH, hD]
+          cases hD : mapD.lookup c with
+          | some o =>
+            left
+            refine ⟨o, .d2h, .inr ⟨rfl, rfl, rfl⟩, ?_⟩
+            simp [Cp.copyDone, Cp.pushDrv, hr, hH, hD]
+          | none =>
+            right
+            simp [hr, hH, hD]
+      · left; simp [hr]
 
 theorem Cp.cacheRsp_cases (s : Cp) :
     s.cacheRsp = (s, false) ∨
@@ -166,10 +179,10 @@ theorem Cp.cacheRsp_cases (s : Cp) :
        (n' = 0 ∧ s.curFlush = none ∧
           s.cacheRsp = ({ s with numAck := n', cacheIn := rest, log := s.log ++ [.ack],
                                  fault := some "nilderef" }, true)) ∨
-       (n' = 0 ∧ ∃ f b, s.curFlush = some f ∧ (b = true ↔ s.drvOut.length < s.capDrv) ∧
+       (n' = 0 ∧ ∃ f, s.curFlush = some f ∧ s.drvOut.length < s.capDrv ∧
           s.cacheRsp = ({ s with numAck := 0, cacheIn := rest, curFlush := none,
-                                 drvOut := if b then s.drvOut ++ [⟨f, .flush⟩] else s.drvOut,
-                                 log := s.log ++ [.ack, .flushDone f b] }, true)))) := by
+                                 drvOut := s.drvOut ++ [⟨f, .flush⟩],
+                                 log := s.log ++ [.ack, .flushDone f true] }, true)))) := by
   rcases s with ⟨nC, cIn, cDrv, cDma, cCache, drvIn, drvOut, dmaOut, dmaIn, cacheOut, cacheIn, numAck,
     curFlush, mapH, mapD, nextCid, fault, log⟩
   unfold Cp.cacheRsp
@@ -179,19 +192,30 @@ theorem Cp.cacheRsp_cases (s : Cp) :
     cases cacheIn with
     | nil => left; simp
     | cons x rest =>
-      right
-      generalize hn : (if numAck = 0 then 18446744073709551615 else numAck - 1) = n'
-      refine ⟨x, rest, n', rfl, rfl, ?_, ?_⟩
-      · intro h; rw [if_neg (Nat.ne_of_gt h)] at hn; exact hn.symm
-      · by_cases hz : n' = 0
-        · subst hz
-          cases curFlush with
-          | none => right; left; simp
-          | some f =>
-            right; right
-            refine ⟨rfl, f, decide (drvOut.length < cDrv), rfl, by simp, ?_⟩
-            by_cases hr : drvOut.length < cDrv <;> simp [Cp.sendDrv, hr]
-        · left; simp [hz]
+      by_cases hg : numAck = 1 ∧ ¬ drvOut.length < cDrv
+      · left; simp [hg]
+      · right
+        simp only [Option.isSome_none, Bool.false_eq_true, if_false, hg]
+        generalize hn : (if numAck = 0 then 18446744073709551615 else numAck - 1) = n'
+        refine ⟨x, rest, n', by simp, by simp, ?_, ?_⟩
+        · intro h; rw [if_neg (Nat.ne_of_gt h)] at hn; exact hn.symm
+        · by_cases hz : n' = 0
+          · subst hz
+            have h1 : numAck = 1 := by
+              by_cases h0 : numAck = 0
+              · rw [if_pos h0] at hn; cases hn
+              · rw [if_neg h0] at hn; omega
+            have hr : drvOut.length < cDrv := by
+              by_cases hr : drvOut.length < cDrv
+              · exact hr
+              · exact absurd ⟨h1, hr⟩ hg
+            cases curFlush with
+            | none => right; left; simp
+            | some f =>
+              right; right
+              refine ⟨rfl, f, rfl, hr, ?_⟩
+              simp [Cp.pushDrv]
+          · left; simp [hz]
 
 /-! ## Pure facts about logs accepted by the flush acceptor -/
 
